@@ -14,7 +14,7 @@ func init() {
 			"(R4) prover and verifier traversals are equal as decision tables (checkConsistency ≅ verifyIncrementalEnd, verifyIncrementalStart ≅ single-target prover) ; (R5) the monitor requests and verifies the proof between the first and the last snapshot of its batch; shares the hash-formula and audit-key rules of C01. " +
 			"Method: path enumeration with canonical atoms, decision tables, provenance.",
 		Assumptions: []string{"hash collisions are infeasible"},
-		Added:       "Third round: (R9) a missing audit-path entry aborts the recomputation, ProveConsistency prunes with the consistency traversal only, the client verifies the incremental proof unmodified.",
+		Added:       "Third round: (R9) a missing audit-path entry aborts the recomputation, ProveConsistency prunes with the consistency traversal only, the client verifies the incremental proof unmodified. Fifth round: recycled (sync.Pool) objects never leak into a proof handed out; the incremental handler admits every pair Start<=End (finite order model).",
 		Declined:    "rejection for every alternative digest / forked log (a statement over histories) and the (i, j) arithmetic common to prover and verifier traversals.",
 	}, runC03)
 }
